@@ -145,9 +145,10 @@ var $newType = (size, kind, string, named, pkg, exported, constructor) => {
                 typ.len = len;
                 typ.comparable = elem.comparable;
                 typ.keyFor = x => {
-                    return Array.prototype.join.call($mapArray(x, e => {
+                    // x may be a typed array, which can't hold the element keys (strings).
+                    return Array.prototype.map.call(x, e => {
                         return String(elem.keyFor(e)).replace(/\\/g, "\\\\").replace(/\$/g, "\\$");
-                    }), "$");
+                    }).join("$");
                 };
                 typ.copy = (dst, src) => {
                     if (src.length === undefined) {
